@@ -147,6 +147,16 @@ func (t *fnTrans) instr(ins ssa.Instruction) {
 		t.vals[x] = Val{x.Type(), tup.C[k : k+n]}
 	case *ssa.Call:
 		t.call(x, &x.Call, x)
+	case *ssa.Go:
+		// `go f(args)`: the new goroutine's effects reach this one only as interference at yield points (the rely
+		// clauses of the functions involved); here the statement only counts as a spawn (ghost counter nspawn)
+		hn := "GF.nspawn"
+		t.eng.heapSort[hn] = "(Array Int Int)"
+		h := t.heapGet(t.st, hn, "(Array Int Int)")
+		t.heapSet(t.st, hn, "(Array Int Int)", sto(h, "0", add(sel(h, "0"), "1")))
+		if x.Call.IsInvoke() {
+			t.errorf("go statement on an interface method is not modelled")
+		}
 	case *ssa.Defer:
 		t.st.defers = append(t.st.defers, x)
 	case *ssa.RunDefers:
@@ -947,6 +957,9 @@ func (t *fnTrans) instrEffects(ins ssa.Instruction, mods map[string]bool) {
 				addT("E."+typeKey(sl.Elem()), sl.Elem(), "")
 			}
 		}
+	case *ssa.Go:
+		mods["GF.nspawn"] = true
+		t.eng.heapSort["GF.nspawn"] = "(Array Int Int)"
 	case *ssa.Next:
 		if rg, ok := x.Iter.(*ssa.Range); ok {
 			mods["$iter."+rg.Name()] = true
